@@ -147,7 +147,7 @@ type RunCtx struct {
 	Viol    []Violation
 	Rand    *rand.Rand
 	sigSeen map[string]int
-	engines int // engines created so far (chooses the block-header style of the next one)
+	engines int      // engines created so far (chooses the block-header style of the next one)
 	CallLog *os.File // for crash attribution: every monitored call is logged before it is made
 }
 
